@@ -81,7 +81,7 @@ def report_trace_rejections(ctx, d, what, fn_of_op):
             if ev["op"] == "enc":
                 m["key"] = "IPToReversedAddr(%s)" % ev["ip"]
             else:
-                m["key"] = "%s(%s) [trace]" % (fn, json.dumps(name, ensure_ascii=False))
+                m["key"] = "%s(%s)" % (fn, json.dumps(name, ensure_ascii=False))
             m["what"] = "recorded result %s is not what Arpa.tla allows" % json.dumps(
                 {k: ev[k] for k in ("ok", "fam", "bytes", "bits")})
         except (KeyError, ValueError, TypeError):
